@@ -44,6 +44,9 @@ use crate::{bgzf_level::check_info, cut::CutReader};
 
 #[path = "foreign.rs"]
 pub mod foreign;
+#[path = "presence.rs"]
+pub mod presence;
+use presence::Prefill;
 
 // ------------------------------------------------------------------------------------------ traces
 
@@ -183,6 +186,8 @@ pub struct RCase {
     pub twins: Vec<RCase>,
     /// `Some(label)` for a twin.
     pub layout: Option<String>,
+    /// Index of the richest record (the one the `…(pre-dirtied)` scripts put into the record object first).
+    pub dirty: usize,
 }
 
 impl RCase {
@@ -204,6 +209,7 @@ impl RCase {
             workers_apply: self.workers_apply,
             twins: self.twins.iter().filter_map(|t| t.restricted(keep)).collect(),
             layout: self.layout.clone(),
+            dirty: self.dirty,
         })
     }
 
@@ -222,6 +228,10 @@ pub fn api_name(format: Format, api: u8) -> &'static str {
         (Format::Bam | Format::Sam | Format::SamGz | Format::Vcf | Format::VcfGz | Format::Bcf, 2) => "records",
         (Format::Bam | Format::Sam | Format::SamGz | Format::Vcf | Format::VcfGz, 3) => "record_bufs",
         (Format::Fastq, 1) => "records",
+        (Format::Fastq, 2) => "read_record(pre-dirtied)",
+        (Format::Bam | Format::Sam | Format::SamGz | Format::Vcf | Format::VcfGz | Format::Bcf, 4) => "read_record(pre-dirtied)",
+        (Format::Bam | Format::Sam | Format::SamGz | Format::Vcf | Format::VcfGz, 5) => "read_record_buf(pre-dirtied)",
+        (Format::Gff, 4) => "read_line(pre-dirtied)",
         (Format::Cram, 0) => "records",
         (Format::Cram, 1) => "read_container",
         (Format::Fasta, _) => "read_definition+read_sequence",
@@ -400,6 +410,7 @@ pub fn make_rcase(docs: &[Doc], doc: &Doc) -> Option<RCase> {
         workers_apply: matches!(f, Format::Bam | Format::Bcf | Format::SamGz | Format::VcfGz),
         twins: Vec::new(),
         layout: None,
+        dirty: 0,
     };
     let expect: Vec<Tr> = case.scripts.iter().map(|s| sync_drive(&case, s)).collect();
     for (s, t) in case.scripts.iter().zip(&expect) {
@@ -418,7 +429,7 @@ pub fn make_rcase(docs: &[Doc], doc: &Doc) -> Option<RCase> {
     if foreign::carries_twins(doc) {
         let (mut used, mut rejected) = (Vec::new(), Vec::new());
         for (label, bytes) in foreign::twins_of(doc) {
-            match make_twin(&case, doc, &label, bytes) {
+            match make_twin(&case, doc, &label, bytes, false) {
                 Ok(t) => {
                     used.push(label);
                     case.twins.push(t);
@@ -430,13 +441,25 @@ pub fn make_rcase(docs: &[Doc], doc: &Doc) -> Option<RCase> {
         if !rejected.is_empty() {
             eprintln!("[C16] foreign layouts {}: rejected by the sync reader (recorded, not judged): {}", doc.name, rejected.join("; "));
         }
+        // presence-spanning record sequences under this document's header: the first candidate the sync
+        // reader accepts
+        for (label, bytes) in presence::presence_docs(doc) {
+            match make_twin(&case, doc, &label, bytes, true) {
+                Ok(t) => {
+                    eprintln!("[C16] presence document {}+{label}: {} bytes, scripts: {}", doc.name, t.bytes.len(), t.scripts.iter().map(|s| script_name(f, s)).collect::<Vec<_>>().join(" "));
+                    case.twins.push(t);
+                    break;
+                }
+                Err(why) => eprintln!("[C16] presence document {}+{label}: rejected by the sync reader (recorded, not judged): {why}", doc.name),
+            }
+        }
     }
     Some(case)
 }
 
 /// A foreign-layout twin of `parent`: same scripts, the sync traces on the twin's own bytes as the
 /// specification. `Err(why)` when the sync reader (or indexer) does not accept the layout.
-fn make_twin(parent: &RCase, _doc: &Doc, label: &str, bytes: Vec<u8>) -> Result<RCase, String> {
+fn make_twin(parent: &RCase, _doc: &Doc, label: &str, bytes: Vec<u8>, content: bool) -> Result<RCase, String> {
     let f = parent.format;
     let name = format!("{}+{label}", parent.name);
     let vmap = if parent.vmap.is_some() { Some(VMap::new(&bytes).ok_or("not well-formed BGZF for the independent walker")?) } else { None };
@@ -464,9 +487,20 @@ fn make_twin(parent: &RCase, _doc: &Doc, label: &str, bytes: Vec<u8>) -> Result<
         Script::Unmapped => f == Format::Cram,
         Script::Mixed(_) => true,
     };
-    let kept: Vec<usize> = (0..parent.scripts.len()).filter(|&i| keep(&parent.scripts[i])).collect();
+    let kept: Vec<usize> = (0..parent.scripts.len()).filter(|&i| keep(&parent.scripts[i]) || (content && !thorough && matches!(parent.scripts[i], Script::Seq(_)))).collect();
     let parent_lines: Vec<usize> = kept.iter().map(|&i| parent.expect[i].lines.len()).collect();
-    let mut case = RCase { format: f, name, bytes, vmap, index, scripts: kept.iter().map(|&i| parent.scripts[i].clone()).collect(), expect: Vec::new(), lim, workers_apply: parent.workers_apply, twins: Vec::new(), layout: Some(label.to_string()) };
+    let mut scripts: Vec<Script> = kept.iter().map(|&i| parent.scripts[i].clone()).collect();
+    if content {
+        // different content: every record API, plus the reusing APIs on a pre-dirtied record object
+        match f {
+            Format::Bam | Format::Sam | Format::SamGz | Format::Vcf | Format::VcfGz => scripts.extend([Script::Seq(4), Script::Seq(5)]),
+            Format::Bcf | Format::Gff => scripts.push(Script::Seq(4)),
+            Format::Fastq => scripts.push(Script::Seq(2)),
+            _ => {}
+        }
+    }
+    let mut case = RCase { format: f, name, bytes, vmap, index, scripts, expect: Vec::new(), lim, workers_apply: parent.workers_apply, twins: Vec::new(), layout: Some(label.to_string()), dirty: 0 };
+    let mut expect_fix: Vec<usize> = Vec::new();
     let expect: Vec<Tr> = match vmc::catch(|| case.scripts.iter().map(|s| sync_drive(&case, s)).collect::<Vec<Tr>>()) {
         Ok(e) => e,
         Err((msg, file)) => return Err(format!("sync reader panics: {msg} in {file}")),
@@ -477,11 +511,35 @@ fn make_twin(parent: &RCase, _doc: &Doc, label: &str, bytes: Vec<u8>) -> Result<
             return Err(format!("{}: {}", script_name(f, s), t.lines.last().cloned().unwrap_or_default()));
         }
         // the same content: a sequential trace of the twin has as many lines as the parent's
-        if matches!(s, Script::Seq(_)) && t.lines.len() != parent_lines[i] {
+        if !content && matches!(s, Script::Seq(_)) && t.lines.len() != parent_lines[i] {
             return Err(format!("{}: sync reads {} lines, {} from the original", script_name(f, s), t.lines.len(), parent_lines[i]));
         }
     }
+    if content {
+        // the richest record: the longest line of the first sequential trace
+        let mut best = (0usize, 0usize);
+        let mut k = 0usize;
+        for l in &expect[0].lines {
+            if l.starts_with("rec[") || l.starts_with("line[") {
+                if l.len() > best.1 {
+                    best = (k, l.len());
+                }
+                k += 1;
+            }
+        }
+        case.dirty = best.0;
+        // the pre-dirtied traces depend on it
+        for (i, s) in case.scripts.iter().enumerate() {
+            if matches!((f, s), (Format::Fastq, Script::Seq(2)) | (_, Script::Seq(4 | 5))) {
+                expect_fix.push(i);
+            }
+        }
+    }
     case.expect = expect;
+    for i in expect_fix {
+        let s = case.scripts[i].clone();
+        case.expect[i] = sync_drive(&case, &s);
+    }
     Ok(case)
 }
 
@@ -565,8 +623,12 @@ macro_rules! drain {
 macro_rules! seq_lazy {
     ($m:ident, $t:ident, $r:ident, $vm:ident, $api:expr, $render:expr) => {{
         match $api {
-            0 => {
+            0 | 4 => {
                 let mut rec = Default::default();
+                if $api == 4 {
+                    // the record object holds the richest record of the document before the first read
+                    Prefill::prefill(&mut rec);
+                }
                 let mut i = 0usize;
                 loop {
                     let before = at(&mut $t, $vm, $r.get_ref().vpos());
@@ -598,8 +660,11 @@ macro_rules! seq_lazy {
 macro_rules! seq_bufs {
     ($m:ident, $t:ident, $r:ident, $vm:ident, $api:expr, $header:ident, $render:expr) => {{
         match $api {
-            1 => {
+            1 | 5 => {
                 let mut rec = Default::default();
+                if $api == 5 {
+                    Prefill::prefill(&mut rec);
+                }
                 let mut i = 0usize;
                 loop {
                     let before = at(&mut $t, $vm, $r.get_ref().vpos());
@@ -762,7 +827,7 @@ macro_rules! aln_bgzf_body {
         t.push(format!("{}{pos}", render_sam_header(&header)));
         let render = |rec: &dyn sam::alignment::Record| render_alignment_record(&header, rec, &lim);
         match $script {
-            Script::Seq(api @ (0 | 2)) => seq_lazy!($m, t, $r, vm, *api, |rec| render(rec)),
+            Script::Seq(api @ (0 | 2 | 4)) => seq_lazy!($m, t, $r, vm, *api, |rec| render(rec)),
             Script::Seq(api) => seq_bufs!($m, t, $r, vm, *api, header, |rec| render(rec)),
             other => indexed_scripts!($m, t, $r, vm, $case, other, header, |rec| render(rec), yes),
         }
@@ -809,7 +874,7 @@ macro_rules! sam_body {
         t.push(render_sam_header(&header));
         let render = |rec: &dyn sam::alignment::Record| render_alignment_record(&header, rec, &lim);
         match $script {
-            Script::Seq(api @ (0 | 2)) => seq_lazy!($m, t, $r, vm, *api, |rec| render(rec)),
+            Script::Seq(api @ (0 | 2 | 4)) => seq_lazy!($m, t, $r, vm, *api, |rec| render(rec)),
             Script::Seq(api) => seq_bufs!($m, t, $r, vm, *api, header, |rec| render(rec)),
             _ => unreachable!(),
         }
@@ -844,7 +909,7 @@ macro_rules! var_body {
         t.push(format!("{}{pos}", render_vcf_header(&header)));
         let render = |rec: &dyn vcf::variant::Record| render_variant_record(&header, rec, &lim);
         match $script {
-            Script::Seq(api @ (0 | 2)) => seq_lazy!($m, t, $r, vm, *api, |rec| render(rec)),
+            Script::Seq(api @ (0 | 2 | 4)) => seq_lazy!($m, t, $r, vm, *api, |rec| render(rec)),
             Script::Seq(api) => var_body!(@bufs $bufs, $m, t, $r, vm, *api, header, render),
             other => var_body!(@indexed $indexed, $m, t, $r, vm, $case, other, header, render),
         }
@@ -1079,8 +1144,11 @@ macro_rules! fastq_body {
     ($m:ident, $r:ident, $script:ident) => {{
         let mut t = Tr::default();
         match $script {
-            Script::Seq(0) => {
+            Script::Seq(a @ (0 | 2)) => {
                 let mut rec = fastq::Record::default();
+                if *a == 2 {
+                    Prefill::prefill(&mut rec);
+                }
                 let mut i = 0usize;
                 loop {
                     match aw!($m, $r.read_record(&mut rec)) {
@@ -1131,8 +1199,11 @@ macro_rules! gff_body {
         let mut t = Tr::default();
         let lim = $case.lim;
         match $script {
-            Script::Seq(0) => {
+            Script::Seq(a @ (0 | 4)) => {
                 let mut line = gff::Line::default();
+                if *a == 4 {
+                    Prefill::prefill(&mut line);
+                }
                 let mut i = 0usize;
                 loop {
                     match aw!($m, $r.read_line(&mut line)) {
@@ -1321,6 +1392,7 @@ async fn a_crai<S: AsyncRead + Unpin>(script: &Script, src: S) -> Tr {
 // ------------------------------------------------------------------------------------------ dispatch
 
 pub fn sync_drive(case: &RCase, script: &Script) -> Tr {
+    presence::set_dirt(Some((case.format, case.bytes.clone(), case.dirty)));
     match case.format {
         Format::Bam => s_bam(case, script),
         Format::SamGz => s_samgz(case, script),
@@ -1346,6 +1418,7 @@ pub async fn async_drive<S>(case: &RCase, script: &Script, src: S, w: usize) -> 
 where
     S: AsyncRead + AsyncBufRead + AsyncSeek + Unpin + Vp,
 {
+    presence::set_dirt(Some((case.format, case.bytes.clone(), case.dirty)));
     match case.format {
         Format::Bam => a_bam(case, script, src, w).await,
         Format::SamGz => a_samgz(case, script, src, w).await,
